@@ -42,7 +42,12 @@ def build(cfg):
         init = [lane_token(20 + r, lanes, gran, 1) for r in range(max(1, rows - 1))]   # shorter than depth
     sram = WishboneSRAM(size=size, data_width=dw, granularity=gran, writable=cfg["writable"], init=init)
     if cfg.get("late_init"):
-        sram.init = [lane_token(30 + r, lanes, gran, 0) for r in range(rows)]
+        # the image replaced through the `init` attribute after construction: full length, or shorter than the one it
+        # replaces (the rest of the memory is zero then, as for a short constructor image)
+        n = rows if cfg["late_init"] is True else max(0, rows - cfg["late_init"])
+        init = [lane_token(30 + r, lanes, gran, 0) for r in range(n)]
+        sram.init = init
+    expected_init = ([int(x) for x in init] + [0] * rows)[:rows]
     m = Module()
     m.submodules.sram = sram
     b = sram.wb_bus
@@ -51,7 +56,7 @@ def build(cfg):
     for res, name, (start, end) in b.memory_map.resources():
         mem = res
     probes = [("ack", b.ack), ("dat_r", b.dat_r), ("mem", mem)]
-    meta = dict(init=[int(x) for x in sram.init], map_range=(start, end), map_width=b.memory_map.data_width,
+    meta = dict(init=expected_init, init_attr=[int(x) for x in sram.init], map_range=(start, end), map_width=b.memory_map.data_width,
                 map_addr_width=b.memory_map.addr_width, size=sram.size)
     return Harness(m, inputs, probes, meta)
 
@@ -138,6 +143,9 @@ def configs(tier):
                         continue
                     out.append(dict(dw=dw, gran=gran, rows=rows, writable=writable, init=init, tokens=tokens))
     out.append(dict(dw=16, gran=8, rows=2, writable=True, init="zero", tokens=2, late_init=True))
+    out.append(dict(dw=16, gran=8, rows=2, writable=True, init="A", tokens=2, late_init=1))
+    out.append(dict(dw=8, gran=8, rows=4, writable=False, init="A", tokens=1, late_init=2))
+    out.append(dict(dw=32, gran=32, rows=2, writable=True, init="B", tokens=2, late_init=2))
     out.append(dict(dw=16, gran=8, rows=2, writable=True, init="A", tokens=2, elab_twice=True))
     out.append(dict(dw=32, gran=16, rows=2, writable=False, init="A", tokens=1, elab_twice=True))
     out.append(dict(dw=8, gran=8, rows=4, writable=True, init="B", tokens=2, elab_twice=True))
